@@ -6,10 +6,13 @@ Oracle  = the property's relation between two IMPLEMENTATION answers for the sam
           offsets shifted, link layer set aside, the three IP header error enums
           read as the facts they name.
 Corr    = implementation vs extracted model, field by field (the model covers:
-          SlicedPacket family for the whole-packet pairs; IpSlice/Ipv4Slice/
-          Ipv6Slice, LaxIpSlice/LaxIpv4Slice/LaxIpv6Slice, IpHeaders::from_slice/
-          from_ipv4_slice/from_ipv6_slice for the IP boundary; all 17 read /
-          from_slice pairs)."""
+          SlicedPacket and LaxPacketHeaders families for the whole-packet pairs
+          (eth, sll, et4/et6: the model's second answer is the first one COMPUTED
+          from from_ether_type by the theorem's shift, so "impl a = model a" and
+          "impl b = model b" check the theorem's two sides on the real crate);
+          IpSlice/Ipv4Slice/Ipv6Slice, LaxIpSlice/LaxIpv4Slice/LaxIpv6Slice,
+          IpHeaders::from_slice/from_ipv4_slice/from_ipv6_slice and their three
+          _lax copies for the IP boundary; all 17 read / from_slice pairs)."""
 import re
 import pktgen
 from vlib import hx
@@ -19,7 +22,9 @@ EXTRACT = "ExtC06.v"
 MLMOD = "m_c06"
 RUNNER = "run_c06"
 HARNESS_BIN = "c06"
-RULE = ("case kinds: eth (from_ethernet vs from_ether_type behind the Ethernet II header, 4 families), et4/et6 "
+RULE = ("case kinds: eth (from_ethernet vs from_ether_type behind the Ethernet II header, 4 families), sll "
+        "(from_linux_sll vs from_ether_type behind the 16-byte SLL header: SlicedPacket and LaxPacketHeaders; every "
+        "class of SLL header: short / rejected / protocol type not an ether type / ether type), et4/et6 "
         "(from_ether_type(IPv4|IPv6) vs from_ip, 4 families, ether type matching or contradicting the version nibble), "
         "ipb (12 IP boundary implementations + Ipv6Slice::from_slice_lax on the same bytes), rd:<T> (read(Cursor) vs "
         "from_slice, 17 header types); inputs: structured layered packets of tools/pktgen.py with every length field "
@@ -45,6 +50,15 @@ def corpus():
     return [
         "eth 0102030405060708090a0b0c08004500001c0000000040110000010203040506070800010002000800aa",
         "eth 0102",
+        # Linux SLL start: IPv4/UDP behind it, cut inside UDP; netlink; bad packet type; bad hw; short; VLAN cut
+        "sll 00000001000601020304050600000800" + "4500001c0000000040110000010203040506070800010002000800aa",
+        "sll 00000001000601020304050600000800" + "4500001c00000000401100000102030405060708000100",
+        "sll 0000033800060102030405060000001001020304", "sll 00090001000601020304050600000800aa",
+        "sll 00000002000601020304050600000800aa", "sll 000000010006", "sll -",
+        "sll 000000010006010203040506000081000005", "sll 00000001000601020304050600000004aabb",
+        # IPv4 total_len == header_len / one less / one more (lax struct copies)
+        "ipb 450000140000000040110000010203040506070809", "ipb 450000130000000040110000010203040506070809",
+        "ipb 450000150000000040110000010203040506070809", "ipb 460000180000000040330000010203040506070801010101",
         "et4 4500001c0000000040110000010203040506070800010002000800aa",
         # F11 witnesses
         "et4 470000000000", "et4 40", "et6 -", "et4 -",
@@ -145,6 +159,7 @@ def gen_cases(rng, tier):
         if ent == "eth":
             cases.append("eth " + hx(data))
         elif ent == "sll":
+            cases.append("sll " + hx(data))
             if len(data) >= 16:
                 cases.append("eth " + hx(rng.bytes(12) + data[14:16] + data[16:]))
         elif ent.startswith("et:"):
@@ -187,6 +202,37 @@ def gen_cases(rng, tier):
             cases.append("ipb " + hx(d))
             cases.append("et4 " + hx(d))
             cases.append("et6 " + hx(d))
+    # D: Linux SLL start: every class of header in front of structured payloads, cut anywhere
+    sll_seeds = []
+    for _ in range(2500 if not big else 80000):
+        et, body, tag = pktgen.gen_ip(rng)
+        et2, body2, ltag = pktgen.wrap_link_exts(rng, et, body)
+        pt = rng.choice([0, 3, 7, 8, 9, 255, 256, rng.below(65536)]) if rng.chance(1, 8) else rng.below(8)
+        hw = rng.choice([1] * 12 + [824, 778, 803, 770, 0, 2, 6, rng.below(65536)])
+        proto = et2 if rng.chance(7, 8) else rng.choice([0, 1, 4, 9, 10, 11, 12, 14, 15, 16, 17, 18, 21, 28, 29,
+                                                          0xF4, 0xF5, 0xFA, 0xFB, 0x0800, 0x86DD, 0x8100])
+        data = pktgen.be16(pt) + pktgen.be16(hw) + rng.bytes(10) + pktgen.be16(proto) + body2
+        if len(sll_seeds) < (12 if not big else 120) and pt < 8 and hw == 1 and proto == et2 and len(data) < 110 and "/" in tag:
+            sll_seeds.append(data)
+        cases.append("sll " + hx(_damage(rng, data)))
+    for data in sll_seeds:
+        for i in range(len(data) + 1):
+            cases.append("sll " + hx(data[:i]))
+    # every non-standard / boundary protocol number behind ARPHRD_ETHER, every supported hw id
+    for proto in list(range(0, 32)) + list(range(240, 256)) + [0x0800, 0x0806, 0x8100, 0x88E5, 0x86DD]:
+        for hw in (1, 824, 778, 803, 770, 0, 2):
+            cases.append("sll " + hx(b"\x00\x00" + pktgen.be16(hw) + rng.bytes(10) + pktgen.be16(proto) + rng.bytes(rng.below(30))))
+    # E: IPv4 total length around the header length (the three _lax struct copies and their siblings)
+    for ihl in (5, 6, 15):
+        hl = ihl * 4
+        for tl in (0, hl - 1, hl, hl + 1, hl + 7, hl + 8, hl + 12, hl + 13, 65535):
+            for extra in (0, 1, 8, 12, 13):
+                for proto in (17, 51, 6, 1):
+                    hdr = bytes([0x40 | ihl, 0]) + pktgen.be16(tl) + rng.bytes(5) + bytes([proto]) + rng.bytes(hl - 10)
+                    body = rng.bytes(extra)
+                    if proto == 51 and extra >= 2:
+                        body = bytes([17, rng.choice([0, 1, 2])]) + body[2:]
+                    cases.append("ipb " + hx(hdr + body))
     # C: read vs from_slice
     per = 1200 if not big else 40000
     for ty in TYPES:
@@ -303,6 +349,68 @@ def oracle_eth(data, fi):
     return out
 
 
+NONSTD = set(list(range(1, 10)) + [12, 13, 14, 16, 17] + list(range(21, 29)) + list(range(245, 251)))
+
+
+def sll_class(data):
+    """what the 16 bytes in front are, from the bytes alone (linux/if_packet.h, if_arp.h as the crate reads them):
+    ('short',) | ('reject', expected error) | ('other', tag, proto) | ('ether', ether type)"""
+    if len(data) < 16:
+        return ("short",)
+    pt = (data[0] << 8) | data[1]
+    hw = (data[2] << 8) | data[3]
+    proto = (data[14] << 8) | data[15]
+    if pt > 7:
+        return ("reject", "err content LinuxSllPacketType %d" % pt)
+    if hw == 824:
+        return ("other", "netlink", proto)
+    if hw == 778:
+        return ("other", "gre", proto)
+    if hw in (803, 770):
+        return ("other", "ign", proto)
+    if hw == 1:
+        return ("other", "nonstd", proto) if proto in NONSTD else ("ether", proto)
+    return ("reject", "err content LinuxSllArpHardwareId %d" % hw)
+
+
+def oracle_sll(data, fi, hist):
+    out = []
+    c = sll_class(data)
+    hist["sll:" + c[0]] = hist.get("sll:" + c[0], 0) + 1
+    sa, qa = fi.get("S.a", "?"), fi.get("Q.a", "?")
+    n = len(data)
+    if c[0] == "short":
+        want = "err len 16,%d,slice,LinuxSllHeader,0" % n
+        for fam, a in (("S", sa), ("Q", qa)):
+            if a != want:
+                out.append(("%s.from_linux_sll on %d bytes: '%s', expected '%s'" % (fam, n, a, want), None))
+    elif c[0] == "reject":
+        for fam, a in (("S", sa), ("Q", qa)):
+            if a != c[1]:
+                out.append(("%s.from_linux_sll: '%s', expected '%s'" % (fam, a, c[1]), None))
+    elif c[0] == "other":
+        ws = "ok link=sll(0+16,0+%d) exts=[] net=none tr=none" % n
+        wq = "ok layers=1000 pay=sll(%s:%d,16+%d) stop=none" % (c[1], c[2], n - 16)
+        if sa != ws:
+            out.append(("S.from_linux_sll (protocol type is no ether type): '%s', expected '%s'" % (sa, ws), None))
+        if qa != wq:
+            out.append(("Q.from_linux_sll (protocol type is no ether type): '%s', expected '%s'" % (qa, wq), None))
+    else:
+        if fi.get("cls") != "ether:%d" % c[1]:
+            out.append(("LinuxSllHeader::from_slice protocol type '%s', the bytes say ether type %d" % (fi.get("cls"), c[1]), None))
+        for fam in "SQ":
+            a, b = fi.get(fam + ".a"), fi.get(fam + ".b")
+            if a is None or b is None or b == "-":
+                out.append(("%s: missing answer (a=%s b=%s)" % (fam, a, b), None))
+            elif nolink(a) != nolink(b):
+                out.append(("%s: from_linux_sll '%s' vs from_ether_type(+16) '%s'" % (fam, a, b), None))
+        if fi.get("Q.h") == "DIFF":
+            out.append(("Q: decoded header values differ between from_linux_sll and from_ether_type", None))
+    if c[0] != "ether" and fi.get("cls") != c[0]:
+        out.append(("LinuxSllHeader::from_slice class '%s', the bytes say '%s'" % (fi.get("cls"), c[0]), None))
+    return out
+
+
 def oracle_ett(kind, data, fi, hist):
     out = []
     nib = data[0] >> 4 if data else None
@@ -320,6 +428,7 @@ def oracle_ett(kind, data, fi, hist):
                     out.append(("%s: from_ip '%s' but from_ether_type(%s) '%s'" % (fam, b, kind, a), cls))
             elif canon(a) != canon(b):
                 out.append(("%s: from_ether_type(%s) '%s' vs from_ip '%s'" % (fam, kind, a, b), cls))
+        out.extend(_lax_headers_ip(kind, data, fi))
         for fam in "PQ":
             if fi.get(fam + ".h") == "DIFF":
                 out.append(("%s: decoded header values differ between from_ether_type and from_ip" % fam, None))
@@ -336,7 +445,23 @@ def oracle_ett(kind, data, fi, hist):
             if a != want:
                 out.append(("%s: from_ether_type(%s) with version nibble %s: '%s', expected '%s'" % (fam, kind, nib, a, want), None))
         hist["et:mismatch"] = hist.get("et:mismatch", 0) + 1
+        # the lax struct family does not look at the ether type (F10): the relation holds for every nibble
+        out.extend(_lax_headers_ip(kind, data, fi))
     return out
+
+
+def _lax_headers_ip(kind, data, fi):
+    """C06_laxheaders_ethertype_eq_ip on the implementation: Ok answers equal; a first-header Err of from_ip
+    is exactly the stop error (layer IpHeader) of an otherwise empty from_ether_type answer"""
+    a, b = fi.get("Q.a", "?"), fi.get("Q.b", "?")
+    et = 0x0800 if kind == "et4" else 0x86DD
+    if b.startswith("err "):
+        want = "ok layers=0000 pay=ether(0,%d,slice,0+%d) stop=(%s)@IpHeader" % (et, len(data), b[4:])
+        if a != want:
+            return [("Q: from_ip '%s' but from_ether_type(%s) '%s', expected '%s'" % (b, kind, a, want), None)]
+    elif a != b:
+        return [("Q: from_ether_type(%s) '%s' vs from_ip '%s' (must be identical)" % (kind, a, b), None)]
+    return []
 
 
 _PL = re.compile(r"pl\((?:[01],)?(\d+),")
@@ -426,7 +551,7 @@ def oracle_rd(ty, data, fi, hist):
 
 
 def _nontrivial(kind, fi):
-    vals = [v for k, v in fi.items() if k not in ("eq", "pos", "TH", "P.h", "Q.h")]
+    vals = [v for k, v in fi.items() if k not in ("eq", "pos", "TH", "P.h", "Q.h", "cls")]
     for v in vals:
         if v.startswith("ok"):
             return True
@@ -470,6 +595,8 @@ def compare(ctx, cases, impl, model_lines):
             # oracle
             if k0 == "eth":
                 o = oracle_eth(data, fi)
+            elif k0 == "sll":
+                o = oracle_sll(data, fi, hist)
             elif k0 in ("et4", "et6"):
                 o = oracle_ett(k0, data, fi, hist)
             elif k0 == "ipb":
